@@ -750,7 +750,8 @@ class Prot:
     IMPL_TIMEOUT = 20
     RULE = ("whole protocol texts: arbitrary text before the first BEGIN marker and after the first END marker (incl. a second section), short and long "
             "BEGIN header, 0-60 lines (occasionally 150-400) drawn from the line generator (valid / blank / comment / occasionally malformed), duplicate keys forced in a third "
-            "of the cases, both protocol keys plus unknown keys; structural mutations (missing markers, END before BEGIN, no newline before END). "
+            "of the cases, both protocol keys plus unknown keys; structural mutations (missing markers, END before BEGIN, no newline before END); every second case "
+            "is a two-call history (same text parsed under the other protocol key first, in the same process, result discarded). "
             "non-trivial = at least one assignment line")
 
     @staticmethod
@@ -763,6 +764,9 @@ class Prot:
             st = c["struct"]
             c["pkey"] = pkey
             c["kind"] = ("struct-" + st) if st else ("unknown-key" if pkey not in ("MrPhoenixProtocol", "MrProtocol") else pkey)
+            # every second case is a two-call history: the same text is first parsed under the OTHER protocol key (other quoting
+            # dialect) in the same process, result discarded; the judged call must not depend on it (wave-5 seed C16_eseed1)
+            c["prime"] = (i % 2 == 1)
             out.append(c)
         return out
 
@@ -770,6 +774,11 @@ class Prot:
     def run_impl(case):
         from dcmstack import extract
         pkey, text, _ = build_prot(case)
+        if case.get("prime"):
+            try:
+                extract.parse_phoenix_prot("MrProtocol" if pkey == "MrPhoenixProtocol" else "MrPhoenixProtocol", text)
+            except Exception:
+                pass
         try:
             res = extract.parse_phoenix_prot(pkey, text)
         except extract.PhoenixParseError:
